@@ -163,6 +163,28 @@ func (n *Normalizer) Func(f *Func) Term {
 	return t
 }
 
+// armsAssignLocals: some arm of a statement switch assigns to a local variable with `=`.
+func armsAssignLocals(arms []*StrArm, def *Block) bool {
+	found := false
+	chk := func(b *Block) {
+		if b == nil {
+			return
+		}
+		for _, s := range b.Stmts {
+			if as, ok := s.(*Assign); ok && as.Op == "=" {
+				if _, ok := as.LHS.(*Local); ok {
+					found = true
+				}
+			}
+		}
+	}
+	for _, a := range arms {
+		chk(a.Body)
+	}
+	chk(def)
+	return found
+}
+
 func blockReturns(b *Block) bool {
 	if b == nil {
 		return false
@@ -245,6 +267,27 @@ func (n *Normalizer) stmts(ss []Stmt, ret Term, e *env, blk *Block) Term {
 				}
 			}
 		case *Do:
+			// a switch in statement position whose arms assign to locals: continue the rest of the block inside
+			// every arm (path splitting, as for if statements), so that the assignments reach their uses
+			if sm, ok := x.X.(*StrMatch); ok && !sm.Returns && armsAssignLocals(sm.Arms, sm.Default) && n.inLoop == 0 {
+				rest := ss[i+1:]
+				m := &StrMatch{node: sm.node, Scrut: n.term(sm.Scrut, e), Returns: true}
+				cont := func(b *Block) *Block {
+					var st []Stmt
+					if b != nil {
+						if blockReturns(b) {
+							return &Block{Ret: n.block(b, e)}
+						}
+						st = append(st, b.Stmts...)
+					}
+					return &Block{Ret: n.stmts(append(st, rest...), ret, e, blk)}
+				}
+				for _, a := range sm.Arms {
+					m.Arms = append(m.Arms, &StrArm{Vals: n.terms(a.Vals, e), Body: cont(a.Body)})
+				}
+				m.Default = cont(sm.Default)
+				return mkSeq(effs, m)
+			}
 			effs = append(effs, n.term(x.X, e))
 		case *Defer:
 			effs = append(effs, &App{Fun: &Builtin{Name: "defer"}, Args: []Term{n.term(x.X, e)}})
